@@ -139,6 +139,8 @@ class Defs:
                 parts = d.split(".")
                 if parts[0] == self.selfname:
                     out.add(".".join(parts[:2]))
+                    for extra in parts[2:]:
+                        out.add("attr:" + extra)
                     key = ".".join(parts[:2])
                     if key not in seen:
                         seen.add(key)
